@@ -60,11 +60,14 @@ func NewMemoryCache[MetadataT any](cfg *config.Config, memoryBudgetPercent int, 
 		byteSize:     atomics.NewInt64(0),
 	}
 
-	c.subs.Add(cfg.Cache.MaxCacheSize.OnChange(func(newSize bytesize.ByteSize) {
-		c.maxCacheSize.Set(newSize.Bytes())
+	// Notifications are delivered asynchronously and may overtake each other, so the handlers
+	// apply the current setting instead of the value carried by the notification.
+	c.subs.Add(cfg.Cache.MaxCacheSize.OnChange(func(bytesize.ByteSize) {
+		c.maxCacheSize.Set(cfg.Cache.MaxCacheSize.Read().Bytes())
 	}))
 
-	c.subs.Add(cfg.Cache.Memory.MemoryBudgetPercent.OnChange(func(newPercent int) {
+	c.subs.Add(cfg.Cache.Memory.MemoryBudgetPercent.OnChange(func(int) {
+		newPercent := cfg.Cache.Memory.MemoryBudgetPercent.Read()
 		newCap := int64(sysMem.Total) * int64(newPercent) / 100
 		c.memoryCap.Set(newCap)
 		slog.Info("Memory budget changed", "new_percent", newPercent, "new_cap", bytesize.ByteSize(newCap))
